@@ -821,7 +821,8 @@ def fsproto_jobs(q, which):
         for x in sfx:
             jobs.append(J(sc + x, xmx="12g"))
     if which in ("C03", "C08"):
-        jobs += [J("norecheck", expect_violation="Refines"), J("half_norecheck", expect_violation="Refines")]
+        jobs += [J("norecheck", expect_violation="Refines"), J("half_norecheck", expect_violation="Refines"),
+                 J("half_noname", expect_violation="Refines")]
     if which == "C06":
         jobs += [J("live"), J("unsorted", expect_violation="NoDeadlock"), J("plus", expect_violation="NoDeadlock")]
     return jobs
